@@ -18,7 +18,9 @@ RULE = (
     "the decoded entries in the order found must reproduce the file byte for byte (pins magic, version, size "
     "convention, field order, endianness, narrowest index word, row-id word). reader: the same data encoded by "
     "the independent encoder with every legal (index word, row-id word) pair, including words wider than needed "
-    "and 1/2/8-byte row-id words, must load to exactly that data. size: entries whose values are duck-typed "
+    "and 1/2/8-byte row-id words, must load to exactly that data. reader_totals: reference files in 1-, 2-, 4- and "
+    "8-byte row-id words whose row ids TOTAL 200..700 / 65535..140000 over 2, 3 or 7 entries (the totals cross what "
+    "the narrow word itself can count). size: entries whose values are duck-typed "
     "arrays of 2^29..2^32-1 elements (tofile = seek) so that totals cross 2^30 and 2^32 without materialising "
     "data; the size field must equal the bytes written. Non-trivial = at least 2 entries with an index word != 1 "
     "or the common value being the widest value; distinct by content (+ word sizes)."
@@ -126,6 +128,31 @@ class FakeRowids(object):
         f.seek(4 * self.n, 1)
 
 
+def enum_reader_totals(tier, shard, nshards):
+    """Files in narrow row-id words whose row ids TOTAL more than the word can count (the loader's running
+    offset must not live in the row-id dtype)."""
+    plans = []
+    for rw, totals in ((1, [200, 255, 256, 300, 700]), (2, [65535, 65536, 70000] + ([140000] if tier == "thorough" else [])),
+                       (4, [70000]), (8, [300, 70000])):
+        for total in totals:
+            for k in (2, 3, 7):
+                plans.append((rw, total, k))
+    for i, (rw, total, k) in enumerate(plans):
+        if i % nshards != shard:
+            continue
+        lim = min((1 << (8 * rw)) - 1, 2 ** 32 - 1)
+        per = total // k
+        entries = []
+        for e in range(k):
+            n = per + (total - per * k if e == k - 1 else 0)
+            n = min(n, lim)  # the length itself must fit the row-id word
+            start = (e * 3) % 5
+            rows = [min(lim, start + j) for j in range(n)]
+            rows = sorted(set(rows))
+            entries.append([[e + 1], rows])
+        yield {"common": 0, "arity": 1, "entries": entries, "iw": 1 if k < 200 else 2, "rw": rw}
+
+
 SIZE_PROBES = [
     [2 ** 29], [2 ** 30 - 1], [2 ** 30], [2 ** 30 + 1], [2 ** 31], [2 ** 32 - 1],
     [2 ** 29, 2 ** 29], [2 ** 30, 2 ** 30, 2 ** 30, 2 ** 30], [2 ** 32 - 1, 2 ** 32 - 1, 5],
@@ -198,4 +225,6 @@ SUBS = [
     Sub("reader", check_reader, strategy=lambda tier: reader_cases(30 if tier == "quick" else 80, 40),
         examples={"quick": 3000, "thorough": 100000}),
     Sub("size", check_size, enumerate=enum_size, exhaustive=True, shards={"quick": 2, "thorough": 2}),
+    Sub("reader_totals", check_reader, enumerate=enum_reader_totals, exhaustive=True,
+        shards={"quick": 8, "thorough": 8}),
 ]
